@@ -19,6 +19,13 @@ use std::collections::{BTreeMap, BTreeSet, HashMap};
 use std::panic::AssertUnwindSafe;
 use std::path::{Path, PathBuf};
 
+#[path = "c13/cli_leg.rs"]
+mod cli_leg;
+
+fn trunc(s: &str, n: usize) -> String {
+    if s.chars().count() <= n { s.to_string() } else { format!("{}…", s.chars().take(n).collect::<String>()) }
+}
+
 const STRIDE: usize = 64;
 const DEF_OFF: usize = 40;
 
@@ -404,6 +411,8 @@ fn oracle(real: &Sexp, own_ok: bool, spec: &Sexp) -> Option<(String, String)> {
 enum Pred {
     Oracle(String),
     Order,
+    /// a verdict class of the CLI leg (with the documents glob used)
+    Cli(String, usize),
 }
 
 /// the case with the import lines of every file in reverse order
@@ -436,6 +445,7 @@ struct Ctx<'a> {
     shrunk: BTreeMap<String, usize>,
     legacy: bool,
     pending: Vec<(Case, bool)>,
+    cli: Option<cli_leg::CliEnv>,
 }
 
 impl<'a> Ctx<'a> {
@@ -460,6 +470,7 @@ impl<'a> Ctx<'a> {
                 let (rb, _) = self.real.run(&reversed(c));
                 !same_modulo_order(&ra, &rb)
             }
+            Pred::Cli(class, glob) => self.holds_cli(class, *glob, c),
         }
     }
 
@@ -935,12 +946,16 @@ fn main() {
     let mut rep = Report::new("C13", "import graphs (files × raw #import lines × definitions, one root); bounded-exhaustive over ≤3 (quick) / ≤4 (thorough) files with ≤2 fragments and ≤4 import lines (one per ordered pair incl. self; *, N0, N1, N0+N1), each also with random decorations (respelled paths, repeated/split/permuted lines, repeated names, dangling files, missing names), plus random graphs of ≤8 files; non-trivial = at least two files reachable from the root (distinct by canonical JSON)");
     let mut drv = Driver::spawn(&args.driver);
     let legacy = args.extra.get("legacy").map(|s| s == "1").unwrap_or(false);
-    let mut ctx = Ctx { rep: &mut rep, drv: &mut drv, real: Real { cache: HashMap::new() }, shrunk: BTreeMap::new(), legacy, pending: vec![] };
+    let cli = cli_leg::locate_cli(&args, &mut rep);
+    let mut ctx = Ctx { rep: &mut rep, drv: &mut drv, real: Real { cache: HashMap::new() }, shrunk: BTreeMap::new(), legacy, pending: vec![], cli };
 
     if let Some(path) = &args.replay {
         let v: Value = serde_json::from_str(&std::fs::read_to_string(path).expect("replay file")).expect("replay json");
         let c = &v["case"];
-        if c.get("perm_of").is_some() {
+        if c.get("cli_project").is_some() {
+            let case = Case::from_json(&c["cli_project"]).expect("case");
+            ctx.check_project(&case, c["glob"].as_u64().unwrap_or(0) as usize);
+        } else if c.get("perm_of").is_some() {
             let a = Case::from_json(&c["perm_of"]).expect("case");
             let b = Case::from_json(&c["permuted"]).expect("case");
             ctx.check(&a, true);
@@ -965,6 +980,12 @@ fn main() {
         ctx.check_perm(&c, &p);
     }
     ctx.rep.sample(corpus()[0].to_json());
+
+    // CLI leg: import graphs as projects through the built binary (its own random stream)
+    {
+        let mut crng = Rng::new(args.seed ^ 0xC13C_11);
+        cli_leg::run_leg(&mut ctx, &mut crng, args.thorough() || search);
+    }
 
     // bounded-exhaustive part
     let thorough = args.thorough() || search;
